@@ -140,11 +140,41 @@ func (sc *Scenario) Markers() map[string]string {
 	return mk
 }
 
+// RenderAfterWarmup builds the body once, renders it inside another File first (different
+// name, no hints), and then adds the very same Code values to the scenario's File.
+func (sc *Scenario) RenderAfterWarmup() ([]byte, error) {
+	shared := sc.File.Clone()
+	ref := 1
+	for _, n := range shared.Body {
+		if n != nil && (n.Kind == recipe.KStmt || n.Kind == recipe.KDict) {
+			n.Ref = ref
+			ref++
+		}
+	}
+	b := &recipe.Builder{}
+	warm := b.File(&recipe.File{Ctor: "NewFile", Args: []recipe.Text{"warmup"}, Body: shared.Body})
+	_ = warm.Render(&bytes.Buffer{})
+	f := b.File(shared)
+	buf := &bytes.Buffer{}
+	if err := f.Render(buf); err != nil {
+		return nil, err
+	}
+	return buf.Bytes(), nil
+}
+
 // Run renders and analyses.
-func (sc *Scenario) Run() (*Outcome, error) {
+func (sc *Scenario) Run() (*Outcome, error) { return sc.run(false) }
+
+// RunAfterWarmup is Run with the body's Code values rendered in another File beforehand.
+func (sc *Scenario) RunAfterWarmup() (*Outcome, error) { return sc.run(true) }
+
+func (sc *Scenario) run(warm bool) (*Outcome, error) {
 	m := ModelOf(&sc.File)
 	o := &Outcome{Model: m, Markers: sc.Markers()}
 	src, err := sc.Render()
+	if warm {
+		src, err = sc.RenderAfterWarmup()
+	}
 	if err != nil {
 		o.RenderErr = err
 		return o, nil
@@ -363,11 +393,17 @@ func (o *Outcome) AssertLocalDot() error {
 		}
 	}
 	dotSpecs := map[string]int{}
+	referenced := map[string]bool{}
+	for _, u := range o.Rep.Uses {
+		referenced[o.Markers[u.Marker]] = true
+	}
 	for _, imp := range o.Rep.Imports {
 		if imp.Name == "." {
 			dotSpecs[imp.Path]++
 		}
-		if o.Model.Dot[imp.Path] && imp.Name != "." {
+		// (a dot hint for a path that is only imported anonymously and never referenced produces
+		// no dot import: hints for unreferenced paths produce nothing, and Anon gives `_`)
+		if o.Model.Dot[imp.Path] && imp.Name != "." && referenced[imp.Path] {
 			return o.fail("path %q was declared a dot-import but is imported as %q", imp.Path, imp.Name)
 		}
 		if !o.Model.Dot[imp.Path] && imp.Name == "." {
